@@ -176,6 +176,9 @@ func init() {
 		"(reflect.rtype).String":       ext۰reflect۰rtype۰String,
 		"reflect.New":                  ext۰reflect۰New,
 		"reflect.SliceOf":              ext۰reflect۰SliceOf,
+		"encoding/json.Unmarshal":      extJSONUnmarshal,
+		"reflect.PointerTo":            ext۰reflect۰PointerTo,
+		"reflect.PtrTo":                ext۰reflect۰PointerTo,
 		"reflect.TypeOf":               ext۰reflect۰TypeOf,
 		"reflect.ValueOf":              ext۰reflect۰ValueOf,
 		"reflect.Zero":                 ext۰reflect۰Zero,
@@ -362,6 +365,8 @@ func init() {
 		"(*github.com/henrylee2cn/goutil.atomicMap).Clear":       extSMapClear,
 
 		// ---- sync/atomic
+		"(*sync/atomic.Value).Load":         extAtomicValueLoad,
+		"(*sync/atomic.Value).Store":        extAtomicValueStore,
 		"sync/atomic.AddInt32":              extAtomicAdd,
 		"sync/atomic.AddInt64":              extAtomicAdd,
 		"sync/atomic.AddUint32":             extAtomicAdd,
@@ -1113,4 +1118,88 @@ func shapeExternal(fn *ssa.Function) externalFn {
 		}
 	}
 	return nil
+}
+
+
+// atomic.Value: the struct's single field holds the stored interface value.
+func atomicValueCell(a value) *value {
+	p := atomicCell(a)
+	st, ok := (*p).(structure)
+	if !ok || len(st) != 1 {
+		panic(engineError("atomic.Value layout"))
+	}
+	return &st[0]
+}
+
+func extAtomicValueLoad(fr *frame, args []value) value {
+	fr.i.yieldPoint("atomic.load")
+	p := atomicCell(args[0])
+	c := atomicValueCell(args[0])
+	fr.i.atomicBegin(p)
+	defer fr.i.atomicEnd(p)
+	if v, ok := (*c).(iface); ok {
+		return v
+	}
+	return iface{}
+}
+
+func extAtomicValueStore(fr *frame, args []value) value {
+	fr.i.yieldPoint("atomic.store")
+	v, _ := args[1].(iface)
+	if v.t == nil {
+		panic(targetPanic{v: iface{fr.i.runtimeErrorString, "sync/atomic: store of nil value into Value"}})
+	}
+	p := atomicCell(args[0])
+	c := atomicValueCell(args[0])
+	fr.i.atomicBegin(p)
+	defer fr.i.atomicEnd(p)
+	fr.i.setCell(c, v)
+	return nil
+}
+
+
+// extJSONUnmarshal (stub S-JSON): encoding/json.Unmarshal of CONCRETE bytes
+// into goutil's exportStatus {code int32; msg, cause string} is done by the
+// host's encoding/json; every other use falls through to the interpreted
+// library (whose reflection is mostly outside the engine's model).
+func extJSONUnmarshal(fr *frame, args []value) value {
+	itf, ok := args[1].(iface)
+	if !ok || itf.t == nil {
+		return fallThrough
+	}
+	pt, ok := itf.t.(*types.Pointer)
+	if !ok {
+		return fallThrough
+	}
+	named, ok := pt.Elem().(*types.Named)
+	if !ok || named.Obj().Name() != "exportStatus" || named.Obj().Pkg() == nil || named.Obj().Pkg().Path() != "github.com/henrylee2cn/goutil/status" {
+		return fallThrough
+	}
+	data, ok := args[0].([]value)
+	if !ok {
+		return fallThrough
+	}
+	raw := make([]byte, len(data))
+	for k, b := range data {
+		c, ok := b.(uint8)
+		if !ok {
+			panic(unsupported("encoding/json.Unmarshal of symbolic bytes into a status"))
+		}
+		raw[k] = c
+	}
+	var v struct {
+		Code  int32  `json:"code"`
+		Msg   string `json:"msg"`
+		Cause string `json:"cause"`
+	}
+	if err := json.Unmarshal(raw, &v); err != nil {
+		fn := fr.i.lookupFunc("errors", "New")
+		return call(fr.i, fr, 0, fn, []value{err.Error()})
+	}
+	cell := itf.v.(*value)
+	st := (*cell).(structure)
+	fr.i.setCell(&st[0], v.Code)
+	fr.i.setCell(&st[1], v.Msg)
+	fr.i.setCell(&st[2], v.Cause)
+	return iface{}
 }
